@@ -76,6 +76,7 @@ def dispatch (op : String) (args : List String) (obs : String) : String × Strin
   | "badc" => c12badc args obs
   | "rst" => c18rst args obs
   | "fz" => c15fz args obs
+  | "iso" => c15iso args obs
   | "dialc" => c20dialc args obs
   | "ali" => c17ali args obs
   | "conc" => c19conc args obs
